@@ -28,6 +28,9 @@
 // scripts how long the proxy's Close of it TAKES {returns at once, 50-400 ms, 650-900 ms} and, below crypto/tls on TLS
 // listeners, a peer that does not take its close_notify (the record waits like a write into a full send buffer); a
 // Shutdown that returns nil is judged at that instant: the Close of every served socket has completed, not merely begun.
+// Every Close is judged at the instant of its return as well (every accepted socket closed), also when it is called
+// while handlers tear their connections down (ctl.go genCtlCloseDuring); on TLS listeners that is the known finding F53
+// (crypto/tls answers a second Close at once: the socket of a handler inside tls.Conn.Close outlives Proxy.Close).
 package c11
 
 import (
